@@ -134,6 +134,7 @@ type Interp struct {
 	mem      map[string]AV
 	closures map[string]closureVal
 	depth    int
+	inlined  map[string]bool
 }
 
 // Outcome is the result of one run.
@@ -511,6 +512,9 @@ func (it *Interp) doCall(fr *frame, c ssa.CallInstruction, deferred bool) AV {
 				bindings = append(bindings, it.val(fr, b))
 			}
 		}
+		if it.inlined != nil {
+			it.inlined[FnKey(callee)] = true
+		}
 		ret, exit := it.call(callee, args, bindings)
 		if exit == "panic" {
 			it.und("inlined callee %s panics", FnKey(callee))
@@ -524,6 +528,9 @@ func (it *Interp) doCall(fr *frame, c ssa.CallInstruction, deferred bool) AV {
 	if callee == nil && !cc.IsInvoke() && !deferred {
 		if fv := it.val(fr, cc.Value); fv.Kind == KNonNil && strings.HasPrefix(fv.Key, "closure:") {
 			if cv, ok := it.closures[fv.Key]; ok && cv.fn != nil && cv.fn.Blocks != nil && it.Inline != nil && it.Inline(cv.fn) {
+				if it.inlined != nil {
+					it.inlined[FnKey(cv.fn)] = true
+				}
 				ret, exit := it.call(cv.fn, args, cv.bindings)
 				if exit == "panic" {
 					it.und("inlined closure %s panics", FnKey(cv.fn))
@@ -1301,6 +1308,8 @@ type DecideResult struct {
 	Used     map[string]bool
 	Rows     []string
 	Free     []string // conditions explored as free atoms
+	// Inlined lists the callees that were interpreted as part of the runs.
+	Inlined map[string]bool
 }
 
 // Decide explores the decision tree of fn lazily over the domain and compares
@@ -1320,6 +1329,10 @@ func (p *Prog) Decide(fn *ssa.Function, cfg DecideCfg) (res DecideResult) {
 			return res
 		}
 		it := &Interp{P: p, Env: env, Dom: cfg.Dom, Inline: cfg.Inline, OnCall: cfg.OnCall, NonNilCalls: cfg.NonNil, StopAt: cfg.StopAt}
+		if res.Inlined == nil {
+			res.Inlined = map[string]bool{}
+		}
+		it.inlined = res.Inlined
 		var args []AV
 		fork := func(k string) {
 			for _, v := range cfg.Dom[k] {
